@@ -358,6 +358,24 @@ if bad:
 '''
 
 
+REPLAY_NEARJOINT = '''
+import numpy as np
+from svgpathtools.path import transform
+op = %r
+p = Path(Line(0j, 1300+700j), CubicBezier(1300.004+700j, 1500+900j, 1700+500j, 2000+650.003j), Line(2000+650j, 5+0j))
+M = np.array([[1.1, 0.2, 3.0], [-0.3, 0.9, 1.0], [0.0, 0.0, 1.0]])
+f = {'translated': lambda x: x.translated(3+4j), 'rotated': lambda x: x.rotated(33.0, 10+10j), 'scaled': lambda x: x.scaled(1.5, 0.75, origin=1+1j),
+     'scaled1': lambda x: x.scaled(1.5), 'transform': lambda x: transform(x, M)}[op]
+q = f(p)
+for i, s in enumerate(p):
+    a = f(s)
+    for nm in ('start', 'end'):
+        if abs(getattr(q[i], nm) - getattr(a, nm)) > 1e-9:
+            REPRODUCED('%%s of a path moves the %%s of segment %%d from %%r to %%r although the neighbouring segment does not start there' %% (op, nm, i, getattr(a, nm), getattr(q[i], nm)))
+if q.isclosed() != p.isclosed(): REPRODUCED('%%s changed isclosed() from %%r to %%r' %% (op, p.isclosed(), q.isclosed()))
+'''
+
+
 def fam_joints(R, n, op):
     import svgpathtools.path as P
     from svgpathtools.path import Path, transform
@@ -368,8 +386,11 @@ def fam_joints(R, n, op):
             if n == 1 and not joined[0]:
                 continue
 
+            alone = []
+
             def run():
                 c = Ctx.cur
+                del alone[:]
                 segs = [mk(k, i) for i, k in enumerate(kinds)]
                 for i in range(n):
                     e = ceq(segs[i].end, segs[(i + 1) % n].start)
@@ -377,12 +398,16 @@ def fam_joints(R, n, op):
                 p = Path(*segs)
                 if op == 'translated':
                     q = p.translated(symc('z0'))
+                    alone[:] = [s_.translated(symc('z0')) for s_ in segs]
                 elif op == 'rotated':
                     q = p.rotated(symr('degs'), symc('o'))
+                    alone[:] = [s_.rotated(symr('degs'), symc('o')) for s_ in segs]
                 elif op == 'scaled':
                     q = p.scaled(symr('sx'), symr('sy'), origin=symc('o'))
+                    alone[:] = [s_.scaled(symr('sx'), symr('sy'), origin=symc('o')) for s_ in segs]
                 elif op == 'scaled1':
                     q = p.scaled(symr('sx'))
+                    alone[:] = []
                 else:
                     M = np.empty((3, 3), dtype=object)
                     for i in range(2):
@@ -392,6 +417,7 @@ def fam_joints(R, n, op):
                     if n >= 2:
                         c.assume(M[0, 0].e != 1)     # the identity shortcut (and its 64 forks) is covered by n = 1
                     q = transform(p, M)
+                    alone[:] = [transform(s_, M) for s_ in segs]
                 if op.startswith('scaled') or n == 1:
                     return segs, (list(q), q.start, q.end)
                 return segs, (list(q), None, None)
@@ -428,6 +454,15 @@ def fam_joints(R, n, op):
                     R.obligations -= 1
                     R.direct_cex('%s.%s.path-start-end' % (op, ''.join(kinds)), {'cls': 'Path.start/end of the transformed path are not those of its segments (%s)' % op,
                                  'inputs': {'kinds': kinds, 'joined': joined, 'op': op}, 'script': REPLAY_JOINT % (''.join(kinds), list(joined), op)})
+                # joints that did NOT coincide are left alone: both ends are those of the segment transformed on its own (reals)
+                if len(alone) == n and not all(joined):
+                    cl = []
+                    for i in range(n):
+                        if not joined[i]:
+                            cl.append(ceq(tosc(q[i].end), tosc(alone[i].end)))
+                            cl.append(ceq(tosc(q[(i + 1) % n].start), tosc(alone[(i + 1) % n].start)))
+                    R.ob('%s.open-joints-left-alone' % op, ctx, z3.And(*cl), timeout_ms=30000,
+                         cex=lambda m: {'cls': 'a joint that did not coincide is moved by %s' % op, 'inputs': {'kinds': kinds, 'joined': joined}, 'script': REPLAY_NEARJOINT % op})
                 eqs = [c for c in ctx.pc]    # includes the joint equalities (plain variable equalities)
                 for i in range(n):
                     if not joined[i]:
